@@ -69,6 +69,12 @@ func (c *Ctx) strEval(fa *FnAnalysis, st *State, v ssa.Value, depth int) ([]strP
 	switch x := v.(type) {
 	case *ssa.Parameter:
 		return []strPiece{{term: fa.term(st, x)}}, true
+	case *ssa.Extract:
+		// one result of a call: an opaque string
+		if bt, ok := x.Type().Underlying().(*types.Basic); ok && bt.Kind() == types.String {
+			return []strPiece{{term: fa.term(st, x)}}, true
+		}
+		return nil, false
 	case *ssa.BinOp:
 		if x.Op != token.ADD {
 			return nil, false
@@ -469,4 +475,200 @@ func (c *Ctx) strEmptiness(fa *FnAnalysis, st *State, t *Term) (nonEmpty bool, k
 		return false, true
 	}
 	return false, false
+}
+
+// ruleStrOperatorPad: the operator text stack.string hands to the assembler is
+// padded exactly when padding is on and no symbol is set; in every other
+// combination it is the bare operator text typ() returned.
+func (c *Ctx) ruleStrOperatorPad() {
+	rep := c.rep
+	fn := c.anchor("R-STR", "(*stack).string")
+	if fn == nil {
+		return
+	}
+	nspad, ok := c.p.constVal("nspad")
+	if !ok {
+		return
+	}
+	fa := c.eng.analyze(fn, nil)
+	pos := c.p.pos(fn.Pos())
+	calls := c.findCalls(fn, "stack.assembleStringStack", "(*stack).assembleStringStack")
+	if len(calls) != 1 || len(calls[0].Call.Args) < 3 {
+		rep.bad("R-STR", relName(fn), "OPERATOR: padding", pos, "expected one hand-over to the assembler")
+		return
+	}
+	ac := calls[0]
+	otArg := ac.Call.Args[2]
+	typCalls := c.findCalls(fn, "stack.typ", "(*stack).typ")
+	symCalls := c.findCalls(fn, "stack.getSymbol", "(*stack).getSymbol")
+	posCalls := c.findCalls(fn, "stack.positive")
+	states := fa.statesBefore(ac)
+	// split undecided padding decisions
+	for _, b := range fn.Blocks {
+		for _, in := range b.Instrs {
+			pc, ok := in.(*ssa.Call)
+			if !ok || len(pc.Call.Args) != 2 || !b.Dominates(ac.Block()) {
+				continue
+			}
+			if cal := c.p.callee(&pc.Call); cal == nil || relName(cal) != "padValue" {
+				continue
+			}
+			var next []*State
+			for _, st := range states {
+				if _, k := fa.knownTerm(st, aTR, fa.term(st, pc.Call.Args[0])); k {
+					next = append(next, st)
+					continue
+				}
+				for _, pol := range []bool{true, false} {
+					s2 := st.clone()
+					fa.assumeVal(s2, pc.Call.Args[0], pol)
+					if !s2.dead {
+						next = append(next, s2)
+					}
+				}
+			}
+			states = next
+		}
+	}
+	var problems []string
+	rows := map[string]int{}
+	for _, st := range states {
+		ps, ok := c.strEval(fa, st, otArg, 0)
+		if !ok {
+			problems = append(problems, "the operator text handed to the assembler cannot be evaluated on some path")
+			continue
+		}
+		ps = normPieces(ps)
+		var opT *Term
+		for _, tc := range typCalls {
+			opT = fa.callResultTerm(st, tc, 0)
+		}
+		np, kn := false, false
+		for _, pc := range posCalls {
+			if len(pc.Call.Args) == 2 && isConstInt(pc.Call.Args[1], nspad) {
+				if v, k := fa.knownTerm(st, aTR, fa.term(st, pc)); k {
+					np, kn = v, true
+				}
+			}
+		}
+		symSet, ks := false, false
+		for _, sc := range symCalls {
+			if v, k := c.strEmptiness(fa, st, fa.term(st, sc)); k {
+				symSet, ks = v, true
+			}
+		}
+		// shape: blanks? op blanks?
+		l, r, okShape := "", "", false
+		{
+			i := 0
+			if i < len(ps) && ps[i].term == nil {
+				l = ps[i].lit
+				i++
+			}
+			if i < len(ps) && ps[i].term != nil && (opT == nil || ps[i].term == opT) {
+				i++
+				if i < len(ps) && ps[i].term == nil {
+					r = ps[i].lit
+					i++
+				}
+				okShape = i == len(ps) && strings.Trim(l, " ") == "" && strings.Trim(r, " ") == ""
+			}
+		}
+		if !okShape {
+			problems = append(problems, "the operator handed to the assembler is "+piecesString(ps)+", not typ()'s text between optional blanks")
+			continue
+		}
+		padded := l != "" && r != ""
+		bare := l == "" && r == ""
+		switch {
+		case kn && np: // no-padding
+			rows["nopad"]++
+			if !bare {
+				problems = append(problems, "under no-padding the operator is handed over with blanks: "+piecesString(ps))
+			}
+		case ks && symSet:
+			rows["symbol"]++
+			if !bare {
+				problems = append(problems, "a symbol operator is handed over with blanks of its own (the join adds them): "+piecesString(ps))
+			}
+		case kn && ks && !np && !symSet:
+			rows["word"]++
+			if !padded {
+				problems = append(problems, "a word operator with padding on is handed over without blanks: "+piecesString(ps))
+			}
+		default:
+			problems = append(problems, "padding option or symbol not decided where the operator text is prepared")
+		}
+	}
+	for _, r := range []string{"nopad", "symbol", "word"} {
+		if rows[r] == 0 {
+			problems = append(problems, "no path for the case '"+r+"'")
+		}
+	}
+	if len(problems) == 0 {
+		rep.ok("R-STR", relName(fn), "OPERATOR: padding", pos, "typ()'s text reaches the assembler padded exactly when padding is on and no symbol is set")
+	} else {
+		sort.Strings(problems)
+		rep.bad("R-STR", relName(fn), "OPERATOR: padding", pos, strings.Join(uniq(problems), "; "))
+	}
+}
+
+// ruleStrFloatWidth: a floating-point (or complex) leaf is formatted at its
+// own width: strconv.FormatFloat(float64(x), .., 32) for a float32 x, .., 64
+// for a float64 (FormatComplex: 64 / 128).  Formatting a float32 at 64 bits
+// prints digits the value never had (0.1 -> 0.10000000149011612).
+func (c *Ctx) ruleStrFloatWidth() {
+	rep := c.rep
+	n := 0
+	for _, fn := range c.p.Funcs {
+		ord := newOrdinal()
+		for _, b := range fn.Blocks {
+			for _, in := range b.Instrs {
+				call, ok := in.(*ssa.Call)
+				if !ok {
+					continue
+				}
+				cal := c.p.callee(&call.Call)
+				if cal == nil || (cal.String() != "strconv.FormatFloat" && cal.String() != "strconv.FormatComplex") || len(call.Call.Args) != 4 {
+					continue
+				}
+				n++
+				construct := ord.next("width of " + cal.Name())
+				pos := c.p.instrPos(in)
+				bits, okB := constIntOf(call.Call.Args[3])
+				// the operand's own type: the source of a widening conversion, else the operand type
+				v := call.Call.Args[0]
+				if cv, ok := v.(*ssa.Convert); ok {
+					v = cv.X
+				}
+				want := int64(-1)
+				if bt, ok := v.Type().Underlying().(*types.Basic); ok {
+					switch bt.Kind() {
+					case types.Float32:
+						want = 32
+					case types.Float64:
+						want = 64
+					case types.Complex64:
+						want = 64
+					case types.Complex128:
+						want = 128
+					}
+				}
+				// a value that comes out of reflection (Value.Float / Value.Complex) has lost its width
+				if vc, ok := v.(*ssa.Call); ok {
+					if cc := c.p.callee(&vc.Call); cc != nil && strings.HasPrefix(cc.String(), "(reflect.Value).") {
+						want = -1
+					}
+				}
+				if okB && want > 0 && bits == want {
+					rep.ok("R-STR", relName(fn), construct, pos, fmt.Sprintf("a %d-bit operand is formatted at %d bits", want, bits))
+				} else {
+					rep.bad("R-STR", relName(fn), construct, pos, "the bit size handed to the formatter is not the width of the operand's own type: a float32 printed at 64 bits shows digits it never had")
+				}
+			}
+		}
+	}
+	if n == 0 {
+		rep.bad("R-STR", "package", "width of FormatFloat", "?", "no floating-point formatting found")
+	}
 }
